@@ -147,4 +147,30 @@ theorem unsigned_abs_eq (i : Int) : Rs.unsigned_abs i = i.natAbs := rfl
 /-- the model spells truncated subtraction with a test -/
 theorem sub_ite (a b : Nat) : (if b ≤ a then a - b else 0) = a - b := by split <;> omega
 
+/-! ## further arithmetic facts (second hardening pass) -/
+theorem saturating_sub_eq (a b : Nat) : Rs.saturating_sub a b = a - b := rfl
+
+theorem saturating_add_eq (a b : Nat) : Rs.saturating_add a b = a + b := rfl
+
+theorem sign_cases (i : Int) : (i < 0 ∧ ¬ 0 ≤ i) ∨ (¬ i < 0 ∧ 0 ≤ i) := by omega
+
+theorem ge_int (a b : Int) : Rs.ge a b = decide (b ≤ a) := rfl
+
+theorem gt_int (a b : Int) : Rs.gt a b = decide (b < a) := rfl
+
+theorem le_int (a b : Int) : Rs.le a b = decide (a ≤ b) := rfl
+
+theorem substrBounds_eq (len : Nat) (idx : Int) (limit : Option Int) :
+    StrOp.substrBounds len idx limit =
+      ((if idx < 0 then len - idx.natAbs else min len idx.natAbs),
+       (match limit with
+        | none => len
+        | some l =>
+            if l < 0 then len - l.natAbs
+            else min len (if (if idx < 0 then len - idx.natAbs else min len idx.natAbs) + l.natAbs < 2 ^ 64
+              then (if idx < 0 then len - idx.natAbs else min len idx.natAbs) + l.natAbs else len))
+        - (if idx < 0 then len - idx.natAbs else min len idx.natAbs)) := by
+  simp only [StrOp.substrBounds, sub_ite]
+  cases limit <;> rfl
+
 end JL.Lemmas.TieC
